@@ -4,7 +4,7 @@ from ..facts import callee_name
 from .. import cfg as C
 from .. import vcai as V
 from . import C04
-from .common import copy_helpers, is_add_call
+from .common import copy_helpers, is_add_call, pass_body
 
 PASSES = {
     "constants": "optimizer::constant_optimizer::optimize_graph_constants",
@@ -85,9 +85,9 @@ def run(facts, rep, tier):
     vidx = {n: i for i, n in vs}
     n_sites = 0
     for short, fname in sorted(COPIERS.items()):
-        b = facts.body(fname)
-        if not rep.anchor("C06.A", fname, b):
+        if not rep.anchor("C06.A", fname, facts.body(fname)):
             continue
+        b = pass_body(facts, fname)
         fl = Flow(facts, b, EXTRA)
         flo = Flow(facts, b, EXTRA, call_hook=order_hook)
         helpers = copy_helpers(facts)
